@@ -257,20 +257,56 @@ func (e *Engine) closednessAxiom(h Term, key string, bound Term) (Term, bool) {
 	case "iface":
 		b := App("i-val", SInt, val)
 		return Term{fmt.Sprintf("(forall %s (! (<= %s %s) :pattern (%s)))", vars, b.S, bound.S, val.S), SBool}, true
+	case "struct":
+		// struct values held in the array: their pointer-like fields (one level) are not fresh refs either
+		if f := e.structClosedness(val, e.heapGoType[key], bound); f.S != "true" {
+			return Term{fmt.Sprintf("(forall %s (! %s :pattern (%s)))", vars, f.S, val.S), SBool}, true
+		}
 	}
 	return Term{}, false
 }
 
 func valKindOf(t types.Type) string {
-	switch t.Underlying().(type) {
+	switch u := t.Underlying().(type) {
 	case *types.Pointer, *types.Map, *types.Chan:
 		return "ptr"
 	case *types.Slice:
 		return "slice"
 	case *types.Interface:
 		return "iface"
+	case *types.Struct:
+		for i := 0; i < u.NumFields(); i++ {
+			switch u.Field(i).Type().Underlying().(type) {
+			case *types.Pointer, *types.Map, *types.Chan, *types.Slice, *types.Interface:
+				return "struct"
+			}
+		}
 	}
 	return ""
+}
+
+// structClosedness: the pointer-like fields (one level) of struct value v are <= bound.
+func (e *Engine) structClosedness(v Term, t types.Type, bound Term) Term {
+	if t == nil {
+		return TTrue
+	}
+	st, ok := t.Underlying().(*types.Struct)
+	if !ok {
+		return TTrue
+	}
+	var fs []Term
+	for i := 0; i < st.NumFields(); i++ {
+		f := e.tm.FieldOf(t, v, i)
+		switch st.Field(i).Type().Underlying().(type) {
+		case *types.Pointer, *types.Map, *types.Chan:
+			fs = append(fs, Le(f, bound))
+		case *types.Slice:
+			fs = append(fs, Le(App("s-base", SInt, f), bound))
+		case *types.Interface:
+			fs = append(fs, Le(App("i-val", SInt, f), bound))
+		}
+	}
+	return And(fs...)
 }
 
 func (s *State) heapGet(key, sort string) Term {
